@@ -214,6 +214,10 @@ def pattern(draw, n):
 @st.composite
 def value_for(draw, name, n):
     """an in-range value for (dtype, bit length n): generated from a bit pattern so floats are exactly representable"""
+    c = canon(name)
+    if c in ('uint', 'int', 'uintbe', 'intbe', 'uintle', 'intle') and n >= 1 and draw(st.integers(0, 2)) == 0:
+        lo, hi = int_range(c, n)
+        return draw(st.sampled_from([lo, hi, max(lo, min(hi, lo + 1)), max(lo, hi - 1), 0, max(lo, -1), min(hi, 1), hi // 2, lo // 2]))
     return decode(name, draw(pattern(n)))
 
 
